@@ -30,7 +30,8 @@ _H = dict(q2_spec=q2_spec, fftidx=fftidx, pw=pw)
 
 for _key, _extra in (("acryo._utils:nd_butterworth_weight", {}),
                      ("acryo.backend._bandpass:nd_butterworth_weight", {"backend": T.Backend()})):
-    @contract(_key, props=["C16"])
+    # (the backend variant is what the alignment models' pre_transform uses: C07's "low-pass-filtered" depends on it)
+    @contract(_key, props=["C16", "C07"] if _key.startswith("acryo.backend") else ["C16"])
     class nd_butterworth_weight:
         """weight[idx] == 1 / (1 + (|f| / cutoff)^(2*order)) with |f|^2 = sum_a (fftindex(idx_a, d_a) / d_a)^2, on the
         full grid (real=False) or on rfftn's half grid (real=True: last axis d//2 + 1)."""
@@ -106,7 +107,7 @@ for _key, _pre in (("acryo._utils:lowpass_filter", {}),
 
 for _key, _pre in (("acryo._utils:lowpass_filter_ft", {}),
                    ("acryo.backend._bandpass:lowpass_filter_ft", {"backend": T.Backend()})):
-    @contract(_key, props=["C16"])
+    @contract(_key, props=["C16", "C07"] if _key.startswith("acryo.backend") else ["C16"])
     class lowpass_filter_ft:
         """Fourier-space variant: full spectrum of the input times the full-grid Butterworth weight (identity branch:
         the plain spectrum).  With the trusted lemma fftn(irfftn(w_half * rfftn x, s)) = w_full * fftn x for real x
